@@ -347,4 +347,70 @@ def Admissible (text : List Char) : Bool :=
   | none => true
   | some toks => toks.all (fun t => !tokExcluded text t)
 
+/-! ## positions an error may name (C16) -/
+
+mutual
+/-- if a block comment of `cs` is not closed: how many characters remain at its opener -/
+def openerGround : List Char → Option Nat
+  | [] => none
+  | c :: cs =>
+    if isSpace c then openerGround cs
+    else if c = '/' then openerSlash (cs.length + 1) cs
+    else none
+def openerSlash (k : Nat) : List Char → Option Nat
+  | [] => none
+  | c :: cs =>
+    if c = '/' then openerLine cs
+    else if c = '*' then openerBlock k false cs
+    else none
+def openerLine : List Char → Option Nat
+  | [] => none
+  | c :: cs => if c = '\n' then openerGround cs else openerLine cs
+def openerBlock (k : Nat) (star : Bool) : List Char → Option Nat
+  | [] => some k
+  | c :: cs => if star && c = '/' then openerGround cs else openerBlock k (c = '*') cs
+end
+
+/-- offsets of the backslashes of undefined pairs in raw double-quoted text starting at offset `off`
+(up to the closing quote, or to the end of the text when the string is not closed; a backslash that
+ends the text escapes the line feed the lexer appends) -/
+def escMarks : Nat → List Char → List Nat
+  | _, [] => []
+  | off, c :: cs =>
+    if c = '"' then []
+    else if c = '\\' then
+      match cs with
+      | [] => [off]
+      | e :: r =>
+        if e = 'n' || e = 't' || e = '"' || e = '\\' then escMarks (off + 2) r
+        else off :: escMarks (off + 2) r
+    else escMarks (off + 1) cs
+
+/-- what an error line about a token may point at: `t` the first character of a token, `b` a `}`,
+`e` the backslash of an undefined pair in a double-quoted string, `q` / `d` / `c` the opener of a
+single-quoted string, double-quoted string or block comment that is never closed (the scan ends there).
+`cs` is the tail of a text of `n` characters.  Fuel: `cs.length + 1`. -/
+def marks (n : Nat) : Nat → List Char → List (Char × Nat)
+  | 0, _ => []
+  | f + 1, cs =>
+    match skipGround cs with
+    | none =>
+      match openerGround cs with
+      | some k => [('c', n - k)]
+      | none => []
+    | some [] => []
+    | some (c :: r) =>
+      let off := n - (r.length + 1)
+      if c = ';' || c = '{' then ('t', off) :: marks n f r
+      else if c = '}' then ('t', off) :: ('b', off) :: marks n f r
+      else if c = '\'' then
+        match scanSq r with
+        | none => [('t', off), ('q', off)]
+        | some (_, r') => ('t', off) :: marks n f r'
+      else if c = '"' then
+        match scanDq r with
+        | none => ('t', off) :: ('d', off) :: (escMarks (off + 1) r).map fun o => ('e', o)
+        | some (_, r') => ('t', off) :: ((escMarks (off + 1) r).map fun o => ('e', o)) ++ marks n f r'
+      else ('t', off) :: marks n f ((c :: r).dropWhile (fun x => !isDelim x))
+
 end Goyang.Spec.Parse
